@@ -222,7 +222,15 @@ fn check_pl(obs: &mut Obs, text: &str, how: &dyn Fn() -> Value) -> Option<Vec<u8
         Ok((Ok(mut f), dw)) => {
             obs.count("pl2tfm_output_readable");
             if !dw.is_empty() {
+                // The only reader warning is "extra junk after the stated length": the writer's
+                // own lf disagrees with what it wrote. Accepted, but not as the file it claims to
+                // be - counted as a violation of the closure claim (never seen on the unchanged tree).
                 obs.count("pl2tfm_output_reader_warnings");
+                obs.violation(
+                    format!("pl_to_tfm-output-framing:{}", variant_name(&dw[0])),
+                    json!({"reader_warning": format!("{:?}", dw[0]), "input": text_witness(text),
+                           "output": bytes_witness(&bytes), "derived": how()}),
+                );
             }
             match catch(|| f.validate_and_fix().len()) {
                 Ok(0) => obs.count("pl2tfm_output_validates_clean"),
@@ -581,7 +589,7 @@ impl Monitor for M {
         vec![
             "\"documented error\" = any value of tfm::DeserializationError returned in TfmToPlOutput.pl_data; an Err(fmt::Error) from tfm_to_pl would be a violation".into(),
             "rendering messages (TfmToPlErrorMessage::tftopl_message, DeserializationError::tftopl_message, ParseWarning::pltotf_message) is executed under the same crash oracle because the tftopl/pltotf binaries (anchors of the property) do exactly that with every returned warning".into(),
-            "\"accepted by the TFM reader\" = tfm::File::deserialize(out).0 is Ok; reader/validation warnings on PL->TFM output are counted, not failed".into(),
+            "\"accepted by the TFM reader\" = tfm::File::deserialize(out).0 is Ok and the reader raises no DeserializationWarning (its only one: bytes after the stated length, i.e. the writer's lf disagrees with what it wrote); validation warnings on PL->TFM output are counted, not failed".into(),
             "cases run on a 1 GiB stack (runner default); behaviour of deep nesting on the default 8 MiB stack is probed separately and reported in NOTES.md".into(),
             "property lists are valid UTF-8 (pl_to_tfm takes &str; the binary refuses other files before the library is reached)".into(),
         ]
